@@ -1023,6 +1023,8 @@ func (db *DB) reWriteData(pendingMergeEntries []*Entry) error {
 	}
 	db.ActiveFile = dataFile
 	db.MaxFileID++
+	// the index entries written by the commit below must point at this file
+	db.ActiveFile.fileID = db.MaxFileID
 
 	for _, e := range pendingMergeEntries {
 		err := tx.put(string(e.Meta.bucket), e.Key, e.Value, e.Meta.TTL, e.Meta.Flag, e.Meta.timestamp, e.Meta.ds)
